@@ -106,6 +106,18 @@ func VerifC07Failover() {
 	}
 	p := s.metadata.GetPartition("a", 0)
 	vAssert(p != nil, "partition exists")
+	// optionally the partition has been through an election already (the
+	// failover bookkeeping of the controller is not fresh): both followers
+	// reported r1, the least loaded of them took over
+	if vParam("priorelection", 1) == 1 && len(isr0) == 3 && vChoose(2) == 1 {
+		l0, e0 := p.GetLeader()
+		for _, r := range []string{"r2", "r3"} {
+			s.metadata.ReportLeader(context.Background(), &proto.ReportLeaderOp{Stream: "a", Partition: 0, Replica: r, Leader: l0, LeaderEpoch: e0})
+		}
+		l1, e1 := p.GetLeader()
+		vAssert(l1 != l0 && e1 > e0, "reports from both in-sync followers elect a new leader")
+		vCover("prior-election")
+	}
 	leaderOf := map[uint64]string{}
 	witnesses := map[string]bool{} // in-sync followers that reported the current leader in the current window
 	steps := vParam("events", 4)
